@@ -2,8 +2,10 @@
    Only statements here; proofs live in Proofs/SecFramerProofs.v. Every theorem is relative to an
    ideal AEAD ([ideal_aead seal open]: open (seal p) = p, only seal outputs open, |seal p| = |p| + 16)
    given as an explicit premise; nothing is claimed about dryoc / snow themselves.
-   Three parts of the property FAIL for the code as written and are stated as refutations:
-     C18_enc_roundtrip_any_size_refuted  (CURVE record length `as u16` wraps above 65535)
+   The record layer seals the plaintext of a write call in chunks of <= 65519 bytes (seal_records, the
+   repair of the `ciphertext.len() as u16` wrap that used to make CURVE batches above 65519 bytes
+   undecodable and Noise refuse them): the round trip holds for every size.
+   Two parts of the property still FAIL for the code as written and are stated as refutations:
      C18_heartbeat_decodable_refuted     (PING/PONG bypass the record layer)
      C18_sessions_differ_refuted         (CURVE data keys depend on the static keys only, counters restart at 1) *)
 From RZ Require Import Base.Prelude Base.Stepper Model.Codec Model.Engine Model.SecFramer Proofs.CodecProofs Proofs.SecFramerProofs.
@@ -14,107 +16,88 @@ Theorem C18_chunk_independence : forall key (seal : key -> N -> bytes -> bytes) 
   forall m (c : cipher key) cs1 cs2, concat cs1 = concat cs2 -> recv_run key open m c cs1 = recv_run key open m c cs2.
 Proof. exact x_chunk_independent. Qed.
 
-(* what a sender really emits when its calls succeed: one record per write call, counters +1 each *)
+(* what a sender really emits: every write call succeeds for every size (both mechanisms) and emits one
+   record per 65519-byte chunk of the plaintext, counters +1 each *)
 Theorem C18_sender_emits : forall key (seal : key -> N -> bytes -> bytes) open, ideal_aead seal open ->
-  forall kd ek dk rn bs sn, Forall (sendable kd) bs -> ctr_room sn (length bs) ->
+  forall kd ek dk sn rn b, ctr_room sn (length (chunks (enc_contiguous b))) ->
+  write_msg_batch key seal {| c_kind := kd; c_ek := ek; c_dk := dk; c_sn := sn; c_rn := rn |} b =
+  (SOk (concat (chunk_wires key seal ek sn (chunks (enc_contiguous b)))),
+   {| c_kind := kd; c_ek := ek; c_dk := dk; c_sn := sn + N.of_nat (length (chunks (enc_contiguous b))); c_rn := rn |}).
+Proof. exact x_write_ok. Qed.
+Theorem C18_sender_emits_all : forall key (seal : key -> N -> bytes -> bytes) open, ideal_aead seal open ->
+  forall kd ek dk rn bs sn, ctr_room sn (length (all_chunks bs)) ->
+  exists ws,
   send_all key seal {| c_kind := kd; c_ek := ek; c_dk := dk; c_sn := sn; c_rn := rn |} bs =
-  (map SOk (rec_wires key seal ek sn bs),
-   {| c_kind := kd; c_ek := ek; c_dk := dk; c_sn := sn + N.of_nat (length bs); c_rn := rn |}).
+  (map SOk ws,
+   {| c_kind := kd; c_ek := ek; c_dk := dk; c_sn := sn + N.of_nat (length (all_chunks bs)); c_rn := rn |}) /\
+  concat ws = concat (chunk_wires key seal ek sn (all_chunks bs)).
 Proof. exact x_send_all_ok. Qed.
 
-(* enc_roundtrip_small: every sequence of batches whose plaintexts are <= 65519 bytes (ciphertext fits
-   the 16-bit length) is decoded by the peer to the same frames, for every segmentation *)
-Theorem C18_enc_roundtrip_small : forall key (seal : key -> N -> bytes -> bytes) open, ideal_aead seal open ->
+(* enc_roundtrip_any_size: every sequence of batches of ANY size is decoded by the peer to the same frames,
+   for every segmentation of the byte stream, CURVE and Noise alike *)
+Theorem C18_enc_roundtrip_any_size : forall key (seal : key -> N -> bytes -> bytes) open, ideal_aead seal open ->
   forall m kd ek k sn n bs cs,
-  Forall small bs -> Forall (admitted m) (flat bs) -> ctr_room n (length bs) ->
-  concat cs = concat (rec_wires key seal k n bs) ->
+  Forall (admitted m) (flat bs) -> ctr_room n (length (all_chunks bs)) ->
+  concat cs = concat (chunk_wires key seal k n (all_chunks bs)) ->
   feed (sstep key open m) (smu key) 0 (rcv key kd ek k sn n) [] cs =
-    (rcv key kd ek k sn (n + N.of_nat (length bs)), [], map RFrame (flat bs)).
-Proof. exact x_enc_roundtrip_small. Qed.
+    (rcv key kd ek k sn (n + N.of_nat (length (all_chunks bs))), [], map RFrame (flat bs)).
+Proof. exact x_enc_roundtrip_any_size. Qed.
 
-(* enc_large_batch, Noise: refused with an error at the sender, nothing emitted, cipher state untouched *)
-Theorem C18_enc_large_batch_noise_refused : forall key (seal : key -> N -> bytes -> bytes) open, ideal_aead seal open ->
-  forall ek dk sn rn b, ~ small b ->
-  let c := {| c_kind := KNoise; c_ek := ek; c_dk := dk; c_sn := sn; c_rn := rn |} in
-  write_msg_batch key seal c b = (SErr, c).
-Proof. exact x_noise_large_refused. Qed.
-
-(* enc_large_batch, CURVE: the call succeeds for every size ... *)
-Theorem C18_enc_large_batch_curve_accepted : forall key (seal : key -> N -> bytes -> bytes) open, ideal_aead seal open ->
-  forall ek dk sn rn b, ctr_ok sn = true ->
-  write_msg_batch key seal {| c_kind := KCurve; c_ek := ek; c_dk := dk; c_sn := sn; c_rn := rn |} b =
-  (SOk (rec_wire key seal ek sn b), {| c_kind := KCurve; c_ek := ek; c_dk := dk; c_sn := sn + 1; c_rn := rn |}).
-Proof. exact x_curve_any_size_accepted. Qed.
-
-(* ... and the peer never delivers anything from a record whose length wrapped, whatever follows it *)
-Theorem C18_enc_large_batch_undecodable : forall key (seal : key -> N -> bytes -> bytes) open, ideal_aead seal open ->
-  forall m kd ek k sn n b rest cs,
-  ~ small b -> ctr_ok n = true ->
-  unforged key seal k [(n, enc_contiguous b)] (rec_wire key seal k n b ++ rest) ->
-  concat cs = rec_wire key seal k n b ++ rest ->
-  let '(st', _, o) := feed (sstep key open m) (smu key) 0 (rcv key kd ek k sn n) [] cs in
-  o = [] \/ (o = [RErr] /\ r_closed st' = true).
-Proof. exact x_wrapped_record_undecodable. Qed.
-
-(* REFUTED (enc_roundtrip_any_size): one 65520-byte frame. The CURVE sender returns Ok and emits a record
-   with length prefix 9; the peer fails on it and closes. Holds for every AEAD with a 16-byte tag. *)
-Theorem C18_enc_roundtrip_any_size_refuted : forall key (seal : key -> N -> bytes -> bytes) open, ideal_aead seal open ->
-  forall m ek k sn n, ctr_ok n = true ->
-  fst (write_msg_batch key seal {| c_kind := KCurve; c_ek := k; c_dk := ek; c_sn := n; c_rn := sn |} wrap_witness)
-    = SOk (rec_wire key seal k n wrap_witness) /\
-  let '(st', _, o) := pump (sstep key open m) (smu key) 0 (rcv key KCurve ek k sn n) (rec_wire key seal k n wrap_witness) in
-  o = [RErr] /\ r_closed st' = true.
-Proof. exact x_enc_roundtrip_any_size_refuted. Qed.
-
-(* tamper_prefix_safety: for every sealed sequence and EVERY stream the attacker can build without
-   forging a ciphertext (flip, drop, duplicate, swap, cut, inject), cut in any way, the receiver hands
-   out exactly the frames of the first j' batches - whole, in order, once - and then nothing, or one
-   error after which it is closed *)
+(* tamper_prefix_safety: for every sealed sequence (any sizes) and EVERY stream the attacker can build
+   without forging a ciphertext (flip, drop, duplicate, swap, cut, inject), cut in any way, the receiver
+   hands out a prefix [fs] of the frames that were sent - exactly those complete in the plaintext of the
+   first j' records, in order, once - and then nothing, or one error after which it is closed *)
 Theorem C18_tamper_prefix_safety : forall key (seal : key -> N -> bytes -> bytes) open, ideal_aead seal open ->
   forall m kd ek k sn n0 bs cs,
-  Forall (admitted m) (flat bs) -> ctr_room n0 (length bs) ->
-  unforged key seal k (sealed n0 bs) (concat cs) ->
+  Forall (admitted m) (flat bs) -> ctr_room n0 (length (all_chunks bs)) ->
+  unforged key seal k (sealed n0 (all_chunks bs)) (concat cs) ->
   let '(st', _, o) := feed (sstep key open m) (smu key) 0 (rcv key kd ek k sn n0) [] cs in
-  exists j', (j' <= length bs)%nat /\
-    ((o = map RFrame (flat (firstn j' bs)) /\ st' = rcv key kd ek k sn (n0 + N.of_nat j')) \/
-     (o = map RFrame (flat (firstn j' bs)) ++ [RErr] /\ r_closed st' = true)).
+  exists j' d' fs, (j' <= length (all_chunks bs))%nat /\
+    PR m (concat (firstn j' (all_chunks bs))) d' fs /\ prefix fs (flat bs) /\
+    ((o = map RFrame fs /\ st' = rcvd key kd ek k sn (n0 + N.of_nat j') d') \/
+     (o = map RFrame fs ++ [RErr] /\ r_closed st' = true)).
 Proof. exact x_tamper_prefix_safety. Qed.
 
-(* the first record that is not the next sealed one: nothing from it or after it is delivered, and as
-   soon as its bytes are complete the receiver fails and closes *)
+(* the first record that is not the next sealed one: nothing that is not complete in the intact records
+   before it is delivered, and as soon as its bytes are complete the receiver fails and closes *)
 Theorem C18_tamper_detected : forall key (seal : key -> N -> bytes -> bytes) open, ideal_aead seal open ->
   forall m kd ek k sn n0 bs j rest cs,
-  Forall (admitted m) (flat bs) -> ctr_room n0 (length bs) -> (j <= length bs)%nat ->
-  Forall small (firstn j bs) -> wf_bytes (firstn 2 rest) = true ->
-  (forall b, nth_error bs j = Some b -> ~ prefix (rec_wire key seal k (n0 + N.of_nat j) b) rest) ->
-  unforged key seal k (sealed n0 bs) (concat (rec_wires key seal k n0 (firstn j bs)) ++ rest) ->
-  concat cs = concat (rec_wires key seal k n0 (firstn j bs)) ++ rest ->
+  let chs := all_chunks bs in
+  Forall (admitted m) (flat bs) -> ctr_room n0 (length chs) -> (j <= length chs)%nat ->
+  wf_bytes (firstn 2 rest) = true ->
+  (forall ch, nth_error chs j = Some ch -> ~ prefix (record_of (seal k (n0 + N.of_nat j) ch)) rest) ->
+  unforged key seal k (sealed n0 chs) (concat (chunk_wires key seal k n0 (firstn j chs)) ++ rest) ->
+  concat cs = concat (chunk_wires key seal k n0 (firstn j chs)) ++ rest ->
+  exists dj fsj, PR m (concat (firstn j chs)) dj fsj /\ prefix fsj (flat bs) /\
   let '(st', r, o) := feed (sstep key open m) (smu key) 0 (rcv key kd ek k sn n0) [] cs in
   if complete rest
-  then o = map RFrame (flat (firstn j bs)) ++ [RErr] /\ r_closed st' = true
-  else o = map RFrame (flat (firstn j bs)) /\ st' = rcv key kd ek k sn (n0 + N.of_nat j) /\ r = rest.
+  then o = map RFrame fsj ++ [RErr] /\ r_closed st' = true
+  else o = map RFrame fsj /\ st' = rcvd key kd ek k sn (n0 + N.of_nat j) dj /\ r = rest.
 Proof. exact x_tamper_detected. Qed.
 
-(* the same at the level of the engine's DeliverMessage actions: whole messages of a prefix of the batches *)
+(* the same at the level of the engine's DeliverMessage actions: whole messages of a prefix of what was sent *)
 Theorem C18_tamper_messages : forall key (seal : key -> N -> bytes -> bytes) open, ideal_aead seal open ->
   forall m kd ek k sn n0 bs cs,
-  Forall (admitted m) (flat bs) -> Forall wf_msg (all_msgs bs) -> ctr_room n0 (length bs) ->
-  unforged key seal k (sealed n0 bs) (concat cs) ->
+  Forall (admitted m) (flat bs) -> Forall wf_msg (all_msgs bs) -> ctr_room n0 (length (all_chunks bs)) ->
+  unforged key seal k (sealed n0 (all_chunks bs)) (concat cs) ->
   let '(_, _, o) := feed (sstep key open m) (smu key) 0 (rcv key kd ek k sn n0) [] cs in
-  exists j', (j' <= length bs)%nat /\
-    (snd (data_fold d_init o) = map ODeliver (all_msgs (firstn j' bs)) \/
-     snd (data_fold d_init o) = map ODeliver (all_msgs (firstn j' bs)) ++ [OErr ESecurity]).
+  exists kk, (kk <= length (all_msgs bs))%nat /\
+    (snd (data_fold d_init o) = map ODeliver (firstn kk (all_msgs bs)) \/
+     snd (data_fold d_init o) = map ODeliver (firstn kk (all_msgs bs)) ++ [OErr ESecurity]).
 Proof. exact x_tamper_messages. Qed.
 
-(* no_cleartext (symbolic): a record is a length prefix computed from a length, followed by ONE seal
-   output; the batch influences the wire only through that seal output *)
-Theorem C18_no_cleartext : forall key (seal : key -> N -> bytes -> bytes) (c : cipher key) b w c',
+(* no_cleartext (symbolic): what a write call emits is, per chunk of the plaintext, a length prefix
+   computed from a length followed by ONE seal output; the batch influences the wire only through the
+   seal outputs of its chunks *)
+Theorem C18_no_cleartext : forall key (seal : key -> N -> bytes -> bytes) open, ideal_aead seal open ->
+  forall (c : cipher key) b w c',
   write_msg_batch key seal c b = (SOk w, c') ->
-  w = be_bytes 2 (len (seal (c_ek c) (c_sn c) (enc_contiguous b)) mod U16) ++ seal (c_ek c) (c_sn c) (enc_contiguous b).
+  w = concat (chunk_wires key seal (c_ek c) (c_sn c) (chunks (enc_contiguous b))).
 Proof. exact x_no_cleartext. Qed.
 Theorem C18_no_cleartext_noninterference : forall key (seal : key -> N -> bytes -> bytes) open, ideal_aead seal open ->
   forall (c : cipher key) b1 b2,
-  seal (c_ek c) (c_sn c) (enc_contiguous b1) = seal (c_ek c) (c_sn c) (enc_contiguous b2) ->
+  Forall2 (fun a b => forall n, seal (c_ek c) n a = seal (c_ek c) n b)
+          (chunks (enc_contiguous b1)) (chunks (enc_contiguous b2)) ->
   write_msg_batch key seal c b1 = write_msg_batch key seal c b2.
 Proof. exact x_no_cleartext_noninterference. Qed.
 
@@ -123,13 +106,14 @@ Proof. exact x_no_cleartext_noninterference. Qed.
    the record length 0x0407 and it and everything after it stays in the buffer: no PONG, no delivery. *)
 Theorem C18_heartbeat_decodable_refuted : forall key (seal : key -> N -> bytes -> bytes) open, ideal_aead seal open ->
   forall m kd ek k sn n bs1 ttl bs2 cs,
-  Forall small bs1 -> Forall (admitted m) (flat bs1) -> ctr_room n (length bs1) ->
-  len (concat (rec_wires key seal k (n + N.of_nat (length bs1)) bs2)) < 1024 ->
-  concat cs = concat (rec_wires key seal k n bs1) ++ hb_ping ttl ++
-              concat (rec_wires key seal k (n + N.of_nat (length bs1)) bs2) ->
+  let k1 := N.of_nat (length (all_chunks bs1)) in
+  Forall (admitted m) (flat bs1) -> ctr_room n (length (all_chunks bs1)) ->
+  len (concat (chunk_wires key seal k (n + k1) (all_chunks bs2))) < 1024 ->
+  concat cs = concat (chunk_wires key seal k n (all_chunks bs1)) ++ hb_ping ttl ++
+              concat (chunk_wires key seal k (n + k1) (all_chunks bs2)) ->
   feed (sstep key open m) (smu key) 0 (rcv key kd ek k sn n) [] cs =
-  (rcv key kd ek k sn (n + N.of_nat (length bs1)),
-   hb_ping ttl ++ concat (rec_wires key seal k (n + N.of_nat (length bs1)) bs2),
+  (rcv key kd ek k sn (n + k1),
+   hb_ping ttl ++ concat (chunk_wires key seal k (n + k1) (all_chunks bs2)),
    map RFrame (flat bs1)).
 Proof. exact x_heartbeat_decodable_refuted. Qed.
 (* the PING really is what on_tick emits, and without a PONG the next tick after the timeout closes *)
@@ -148,9 +132,9 @@ Theorem C18_pong_in_clear : forall ttl ctx,
   data_on d_init (RFrame (cmd_frame (ping_body ttl ctx))) = (d_init, [OSend (hb_pong ctx) false]).
 Proof. exact ping_answered_in_clear. Qed.
 Theorem C18_pong_swallowed : forall key (seal : key -> N -> bytes -> bytes) open, ideal_aead seal open ->
-  forall m kd ek k sn n ctx rest, len ctx <= 250 -> len rest < 1024 ->
-  pump (sstep key open m) (smu key) 0 (rcv key kd ek k sn n) (hb_pong ctx ++ rest) =
-  (rcv key kd ek k sn n, hb_pong ctx ++ rest, []).
+  forall m kd ek k sn n d ctx rest, len ctx <= 250 -> len rest < 1024 ->
+  pump (sstep key open m) (smu key) 0 (rcvd key kd ek k sn n d) (hb_pong ctx ++ rest) =
+  (rcvd key kd ek k sn n d, hb_pong ctx ++ rest, []).
 Proof. exact x_pong_swallowed. Qed.
 
 (* REFUTED (sessions_differ), CURVE: for ALL static keys, roles, ephemeral keys of two sessions and all
@@ -163,23 +147,30 @@ Theorem C18_sessions_differ_refuted : forall key (seal : key -> N -> bytes -> by
 Proof. exact x_sessions_differ_refuted. Qed.
 (* Noise_XX: holds when distinct ephemerals give distinct transport keys and seal separates keys *)
 Theorem C18_sessions_differ_noise : forall key (seal : key -> N -> bytes -> bytes) open, ideal_aead seal open ->
-  forall (statics eph : Type) (noise_split : bool -> statics -> eph -> eph -> key * key) server sk
+  forall (statics eph : Type) (curve_kx : bool -> statics -> key * key)
+         (noise_split : bool -> statics -> eph -> eph -> key * key) server sk
          (e1 e2 e1' e2' : eph) b,
   (forall k k' n p, seal k n p = seal k' n p -> k = k') ->
-  snd (noise_split server sk e1 e2) <> snd (noise_split server sk e1' e2') -> small b ->
+  snd (noise_split server sk e1 e2) <> snd (noise_split server sk e1' e2') ->
+  enc_contiguous b <> [] -> ctr_room 0 (length (chunks (enc_contiguous b))) ->
   fst (write_msg_batch key seal (noise_data_cipher key statics eph noise_split server sk e1 e2) b) <>
   fst (write_msg_batch key seal (noise_data_cipher key statics eph noise_split server sk e1' e2') b).
 Proof. exact x_sessions_differ_noise. Qed.
 
 (* non-vacuity: the toy AEAD satisfies the laws; a replayed record gives an unforged tampered stream on
-   which the receiver delivers the first batch once and then fails; an honest two-batch stream cut in
-   three pieces is decoded completely *)
+   which the receiver delivers the first batch once and then fails; an honest stream with a 70000-byte
+   frame (two records) between two small batches, cut in three pieces, is decoded completely *)
 Example C18_example :
   ideal_aead toy_seal toy_open /\
-  unforged N toy_seal ex_key (sealed 1 [ex_b0; ex_b1]) (ex_w0 ++ ex_w0) /\
+  unforged N toy_seal ex_key (sealed 1 (all_chunks [ex_b0; ex_b1])) (ex_w0 ++ ex_w0) /\
   snd (feed (sstep N toy_open (-1)) (smu N) 0 (rcv N KCurve 7 ex_key 1 1) [] [ex_w0; ex_w0]) =
     map RFrame (flat [ex_b0]) ++ [RErr] /\
-  (let w := concat (rec_wires N toy_seal ex_key 1 [ex_b0; ex_b1]) in
-   snd (feed (sstep N toy_open (-1)) (smu N) 0 (rcv N KCurve 7 ex_key 1 1) [] [firstn 1 w; firstn 30 (skipn 1 w); skipn 31 w]) =
-     map RFrame (flat [ex_b0; ex_b1])).
-Proof. split; [exact toy_ideal | split; [exact ex_replay_unforged | split; vm_compute; reflexivity]]. Qed.
+  length (all_chunks [ex_b0; ex_big; ex_b1]) = 4%nat /\
+  (let w := concat (chunk_wires N toy_seal ex_key 1 (all_chunks [ex_b0; ex_big; ex_b1])) in
+   map rsum (snd (feed (sstep N toy_open (-1)) (smu N) 0 (rcv N KCurve 7 ex_key 1 1) []
+                        [firstn 1 w; firstn (N.to_nat 66000) (skipn 1 w); skipn (N.to_nat 66001) w])) =
+   map rsum (map RFrame (flat [ex_b0; ex_big; ex_b1]))).
+Proof.
+  split; [exact toy_ideal|]. split; [exact ex_replay_unforged|].
+  split; [vm_compute; reflexivity|]. split; [vm_compute; reflexivity|]. vm_compute. reflexivity.
+Qed.
